@@ -105,6 +105,11 @@ def cases(shard, nshards, seed, tier):
     for i in range(2 if tier == "quick" else 8):
         if mine():
             yield {"family": "batch-vs-single-convert", "module": "convert_batch", "i": i}
+    # one group of eight mutually crossing helices of two pairs: the list of all notations has 8! = 40320 members
+    if mine():
+        kk, L = 8, 2
+        yield {"family": "lib2d-eight-crossing-helices", "module": "lib2d", "n": 2 * kk * (L + 1),
+               "pairs": sorted((s_ * (L + 1) + q + 1, kk * (L + 1) + s_ * (L + 1) + (L - q)) for s_ in range(kk) for q in range(L))}
     nb = 20 if tier == "quick" else 200
     for i in range(nb):
         if not mine():
